@@ -4,7 +4,7 @@ import ast
 from .. import tables
 from ..events import Summaries, calls_in, fi_of_term, DUNDERS_CHECKER, DUNDERS_INV
 from ..flow import get_flow, show, strip_sites, subterms
-from ..model import first_line, src_of
+from ..model import AnalysisError, first_line, src_of
 from . import meta, c04
 
 META = {
@@ -41,6 +41,10 @@ def decorator_sites(run, model, rule="C17.mutation-sites"):
                 base = a
                 if base[0] == "idx":
                     base = base[1]
+                    sb = strip_sites(base)
+                    if sb[0] == "display" and not sb[2]:
+                        # an element of a local list that was filled by appends: the term does not say which
+                        raise AnalysisError("%s: `%s` on an element of a local list filled element by element (%s); which list it is cannot be read off its definition" % (fi.qual, how, show(strip_sites(a), 60)))
                 if base[0] == "attr" and base[1] == ("param", subject) and base[2] in dunders:
                     continue
                 bad = "in-place `%s` on %s, which is neither a fresh list nor a list of the %s being decorated" % (how, show(strip_sites(a), 80), subject)
@@ -92,6 +96,8 @@ def invariant_decorator_table(run, model, rule="C17.own-lists"):
                                 for c2, n2 in p.calls:
                                     if c2[1] == ("builtin", "setattr") and c2[2][0] == cls_p and c2[2][2] == recv:
                                         name = ast.literal_eval(c2[2][1][1])
+                            if name is None and recv[0] not in ("attr", "display", "call", "param", "global"):
+                                raise AnalysisError("%s: the list the invariant is appended to is not read off the class or a fresh list set on it (%s); the table of the decorator's lists cannot name it" % (fi.qual, show(recv, 60)))
                             apps.append(name)
                     want_sets = [] if has else sorted(DUNDERS_INV)
                     want_apps = ["__invariants__"] + (["__invariants_on_call__"] if call_ else []) + (["__invariants_on_setattr__"] if seta else [])
